@@ -2,7 +2,7 @@
 """Run the quick checks on a behaviour-preserving refactoring delivered by a sub-agent
 (/tmp/out4/<prop>/<k>/patch.diff): the checks must stay silent.
 
-usage: refverify.py <prop> <k> [--props C01,C02] [--keep]
+usage: refverify.py <prop> <k> [--props C01,C02] [--keep] [--round 2]
  applies the patch to /repo, runs the registered quick check of the property (and any others
  named) with -noevidence, undoes the patch.  Prints one JSON line.  With --keep the case is copied
  to /verif/refactors/<prop>-<k>/ with the outcome recorded in meta.json; first.json remembers
@@ -22,8 +22,9 @@ def main():
     props = [prop]
     if "--props" in args:
         props = args[args.index("--props") + 1].split(",")
-    out = "/tmp/out4/%s/%s" % (prop, k)
-    kept = "/verif/refactors/%s-%s" % (prop, k)
+    rnd = args[args.index("--round") + 1] if "--round" in args else "1"
+    out = "/tmp/out%s/%s/%s" % ({"1": "4", "2": "5"}.get(rnd, rnd), prop, k)
+    kept = "/verif/refactors/%s-%s%s" % (prop, "" if rnd == "1" else "r%s-" % rnd, k)
     if not os.path.exists(out + "/patch.diff") and os.path.exists(kept + "/patch.diff"):
         out = kept
     meta = json.load(open(out + "/meta.json")) if os.path.exists(out + "/meta.json") else {}
